@@ -298,6 +298,17 @@ def handleFindOx (j : Json) : Json :=
   | none, some p => Json.mkObj [("find", enc (EnumC.findOxygenAt v [p]))]
   | none, none => Json.mkObj [("error", "no binding / position")]
 
+def handleRingC (j : Json) : Json :=
+  let atoms : List EnumC.AtomV := match j.getObjVal? "atoms" with
+    | .ok (Json.arr a) => a.toList.map (fun x => match x with
+        | Json.arr #[z, r, i] => ⟨(z.getNat?.toOption).getD 0, (r.getNat?.toOption).getD 0, (i.getNat?.toOption).getD 0⟩
+        | _ => ⟨0, 0, 0⟩)
+    | _ => []
+  let x : List Nat := match j.getObjVal? "x" with
+    | .ok (Json.arr a) => a.toList.map (fun y => (y.getNat?.toOption).getD 0)
+    | _ => []
+  Json.mkObj [("ring_c", Json.num (EnumC.ringCOf ⟨atoms, []⟩ x))]
+
 def handleReact (j : Json) : Json :=
   let str (k : String) := ((j.getObjValAs? String k).toOption.getD "").toList
   let nat (k : String) := (j.getObjValAs? Nat k).toOption.getD 0
@@ -402,6 +413,7 @@ def handle (line : String) : Json :=
     | some "observed" => handleObserved j
     | some "react" => handleReact j
     | some "plan" => handlePlan j
+    | some "ringc" => handleRingC j
     | some "count" => handleCount j
     | some "ping" => Json.mkObj [("pong", Json.bool true)]
     | _ => Json.mkObj [("error", "unknown op")]
